@@ -152,6 +152,49 @@ def wrapper_checks(run):
             run.violation("wrapper-differs", "wigner_d", {"ell_min": ell_min, "ell_max": ell_max}, "Wigner.d", "differs")
 
 
+def derived_calculators(run):
+    """calculators that reach the user through a copy (copy.copy, copy.deepcopy, a pickle round trip — what multiprocessing,
+    joblib or MPI do), taken before and after the original was used: their D and d must satisfy the same bound; checked
+    against the oracle on sampled entries and bit for bit against a freshly constructed calculator"""
+    import copy
+    import pickle
+    import spherical
+    import quaternionic
+    rng = run.rng
+    rots = [("generic", (0.5, -0.1, 0.7, 0.2)), ("generic2", (-0.3, 0.4, 0.1, 0.86)), ("near-pole", (1.0, 1e-9, -2e-9, 0.0)), ("z-rot", (0.8, 0.0, 0.0, 0.6))]
+    rots = [(lab, tuple(x / np.sqrt(sum(y * y for y in R)) for x in R)) for lab, R in rots]
+    for (L, emin) in [(6, 0), (9, 2)]:
+        for used in (False, True):
+            base = spherical.Wigner(L, ell_min=emin)
+            if used:
+                base.D(quaternionic.array(rots[1][1]))
+                base.d(np.exp(0.3j))
+            makers = {"copy.copy": lambda: copy.copy(base), "copy.deepcopy": lambda: copy.deepcopy(base),
+                      "pickle": lambda: pickle.loads(pickle.dumps(base)), "deepcopy-of-deepcopy": lambda: copy.deepcopy(copy.deepcopy(base))}
+            for how, mk in makers.items():
+                try:
+                    w = mk()
+                except Exception as e:   # noqa: BLE001
+                    run.violation("derived-calculator-raised", "Wigner", {"ell_max": L, "ell_min": emin, "derived_by": how, "original_used_before": used}, "a working calculator", repr(e)[:200])
+                    continue
+                for lab, R in rots:
+                    fresh = spherical.Wigner(L, ell_min=emin)
+                    Rq = quaternionic.array(R)
+                    z = complex(2 * (R[0] ** 2 + R[3] ** 2) - 1, 2 * np.sqrt((R[0] ** 2 + R[3] ** 2) * (R[1] ** 2 + R[2] ** 2)))
+                    for what, got, ref in (("Wigner.D", w.D(Rq), fresh.D(Rq)), ("Wigner.d", w.d(z), fresh.d(z))):
+                        run.gap_case("derived-calculators", (L, emin, used, how, lab, what), how)
+                        if got.shape != ref.shape or not np.array_equal(got, ref):
+                            k = int(np.flatnonzero(got != ref)[0]) if got.shape == ref.shape else 0
+                            tr = [t for t in spherical.WignerDrange(emin, L) if fresh.Dindex(*[int(x) for x in t]) == k]
+                            ell_k, mp_k, m_k = [int(x) for x in tr[0]]
+                            ex = oracle.D_exact(R, ell_k, mp_k, m_k) if what == "Wigner.D" else oracle.d_exact(z, ell_k, mp_k, m_k)
+                            run.violation("D-differs-from-definition" if what == "Wigner.D" else "d-differs-from-definition", what,
+                                          {"ell_max": L, "ell_min": emin, "R": list(R), "ell": ell_k, "mp": mp_k, "m": m_k, "calculator_derived_by": how, "original_used_before": used},
+                                          str(oracle.to_complex(ex)) if what == "Wigner.D" else str(float(ex)), str(got.ravel()[k]),
+                                          detail={"note": "a calculator obtained by " + how + " differs from a freshly constructed one (which agrees with the oracle)"})
+                            break
+
+
 def check(run):
     quick = run.tier == "quick"
     run.regenerate()
@@ -172,6 +215,7 @@ def check(run):
     # ---- gap monitor / failing-input search: documented definition (mpmath) ----
     deep = bool(run.broken)
     wrapper_checks(run)
+    run.attempt("gap:derived_calculators", derived_calculators, run)
     gap_D(run, [4, 24] if quick and not deep else ([4, 24, 64] if quick else [4, 24, 64, 128, 256]), rotors, 6 if quick else 10)
     if quick:
         gap_D(run, [128] if not deep else [128, 256], [rotors[0], rotors[9], rotors[14]] + rotors[-2:], 4)   # a large calculator on a few rotors (overflow / accumulation defects appear only there)
